@@ -23,6 +23,9 @@ struct Co {
     /// every service handle may be dropped while calls are in flight (a per-connection service
     /// that goes away, `svc.clone().oneshot(req)` with the original moved): an explored action
     handles_may_go: bool,
+    /// requests may also be issued from a `Drop` that runs while the thread unwinds from an
+    /// unrelated panic (a lease guard that sends a release request through the client)
+    arrivals_during_unwinding: bool,
 }
 
 #[derive(Clone, Debug, PartialEq)]
@@ -37,6 +40,8 @@ enum Role {
 struct X {
     start: Option<Box<dyn FnMut(Req) -> CallerFut>>,
     roles: Vec<Option<Role>>,
+    /// callers whose request was issued while the thread was unwinding
+    unwound: Vec<usize>,
     /// before a Poll: the leader call's status as seen before the poll
     pre_leader_status: Option<CallStatus>,
     saw_cancelled: bool,
@@ -55,7 +60,7 @@ impl Scenario for Co {
         "C11"
     }
     fn label(&self) -> String {
-        format!("coalesce callers={} keys={}{}", self.callers, self.keys, if self.sync_panic_first { " first-inner-call-panics-in-call()" } else if self.handles_may_go { " service-handles-may-be-dropped" } else { "" })
+        format!("coalesce callers={} keys={}{}", self.callers, self.keys, if self.sync_panic_first { " first-inner-call-panics-in-call()" } else if self.handles_may_go { " service-handles-may-be-dropped" } else if self.arrivals_during_unwinding { " requests-issued-while-unwinding" } else { "" })
     }
     fn callers(&self) -> usize {
         self.callers
@@ -91,15 +96,42 @@ impl Scenario for Co {
                 Err(CoalesceError::RecvError) => Outcome::Layer("RecvError".into()),
             })
         });
-        X { start: Some(start), roles: vec![None; 16], pre_leader_status: None, saw_cancelled: false, saw_shared_ok: false, saw_shared_err: false }
+        X { start: Some(start), roles: vec![None; 16], unwound: vec![], pre_leader_status: None, saw_cancelled: false, saw_shared_ok: false, saw_shared_err: false }
     }
     fn arrive_variants(&self, _w: &World, _x: &X, _c: usize) -> Vec<u8> {
-        (0..self.keys).collect()
+        // variants keys..2*keys: the same keys, the request issued during unwinding
+        if self.arrivals_during_unwinding {
+            (0..2 * self.keys).collect()
+        } else {
+            (0..self.keys).collect()
+        }
     }
     fn arrive(&self, w: &mut World, x: &mut X, c: usize, v: u8) {
+        let unwinding = v >= self.keys;
+        let v = v % self.keys;
+        if unwinding {
+            x.unwound.push(c);
+        }
         let req = Req::new(c as u32, v);
         let live_before = live_call_for_key(w, v);
-        let fut = (x.start.as_mut().expect("arrival after the service handles were dropped"))(req.clone());
+        let start = x.start.as_mut().expect("arrival after the service handles were dropped");
+        let fut = if unwinding {
+            struct OnDrop<F: FnMut()>(F);
+            impl<F: FnMut()> Drop for OnDrop<F> {
+                fn drop(&mut self) {
+                    (self.0)()
+                }
+            }
+            let mut made = None;
+            let r2 = req.clone();
+            let _ = std::panic::catch_unwind(std::panic::AssertUnwindSafe(|| {
+                let _guard = OnDrop(|| made = Some(start(r2.clone())));
+                panic!("an unrelated panic: the guard's Drop issues the request while the thread unwinds");
+            }));
+            made.expect("the guard ran")
+        } else {
+            start(req.clone())
+        };
         w.set_arrived(c, req.clone(), fut);
         let own = w.inner_calls_for_req(req.id);
         x.roles[c] = Some(match (own.first(), live_before) {
@@ -132,7 +164,7 @@ impl Scenario for Co {
         }
     }
     fn fingerprint(&self, _w: &World, x: &X) -> String {
-        format!("{:?}{}", &x.roles[..self.callers], if x.start.is_none() { "/handles-dropped" } else { "" })
+        format!("{:?}{}{}", &x.roles[..self.callers], if x.start.is_none() { "/handles-dropped" } else { "" }, if x.unwound.is_empty() { String::new() } else { format!("/issued-while-unwinding{:?}", x.unwound) })
     }
     fn before(&self, w: &World, x: &mut X, a: &Action) {
         x.pre_leader_status = None;
@@ -318,9 +350,10 @@ impl Scenario for Co {
 
 fn configs(tier: Tier) -> Vec<Co> {
     vec![
-        Co { callers: tier.pick(3, 4), keys: 2, max_drops: tier.pick(2, 3), max_panics: 1, sync_panic_first: false, handles_may_go: false },
-        Co { callers: 3, keys: 2, max_drops: 1, max_panics: 0, sync_panic_first: true, handles_may_go: false },
-        Co { callers: 3, keys: 2, max_drops: 1, max_panics: 0, sync_panic_first: false, handles_may_go: true },
+        Co { callers: tier.pick(3, 4), keys: 2, max_drops: tier.pick(2, 3), max_panics: 1, sync_panic_first: false, handles_may_go: false, arrivals_during_unwinding: false },
+        Co { callers: 3, keys: 2, max_drops: 1, max_panics: 0, sync_panic_first: true, handles_may_go: false, arrivals_during_unwinding: false },
+        Co { callers: 3, keys: 2, max_drops: 1, max_panics: 0, sync_panic_first: false, handles_may_go: true, arrivals_during_unwinding: false },
+        Co { callers: 3, keys: 1, max_drops: 1, max_panics: 0, sync_panic_first: false, handles_may_go: false, arrivals_during_unwinding: true },
     ]
 }
 
@@ -369,7 +402,7 @@ fn main() {
         let opts = Opts { max_depth: depth, time_cap: Duration::from_secs(tier.pick(40, 900)), ..Opts::default() };
         let ex = svcx::explore(&cfg, &opts, &mut rep);
         if tier == Tier::Thorough {
-            let small = Co { callers: 3, keys: 2, max_drops: 2, max_panics: 1, sync_panic_first: false, handles_may_go: false };
+            let small = Co { callers: 3, keys: 2, max_drops: 2, max_panics: 1, sync_panic_first: false, handles_may_go: false, arrivals_during_unwinding: false };
             let _ = ex;
             let mut scratch = Report::new("C11", tier, "model_checking");
             let ex3 = svcx::explore(&small, &Opts { max_depth: 6, ..Opts::default() }, &mut scratch);
